@@ -43,3 +43,40 @@ Proof.
   destruct H as [<-|[<-|[<-|[<-|[]]]]]; vm_compute;
     repeat split; try tauto; try (intros H; repeat (destruct H as [H|H]; [discriminate H|]); exact H).
 Qed.
+
+(* the same program under faults: epoll_pwait2 and timerfd missing (ENOSYS from the first call), eventfd2 and eventfd
+   missing (pipe fall-back for the raw event and the kick descriptor), the second wait interrupted (EINTR) *)
+Definition ex_faults : faults :=
+  {| no_pwait2 := true; perm_pwait2 := false; no_timerfd := true; no_ppoll := true;
+     no_eventfd2 := true; no_eventfd := true; no_create1 := false; emfile := false;
+     eintr_waits := [2]; eintr_ctl := 0 |}.
+
+Definition ex_all_f (be : Z) : scenario :=
+  {| sc_backend := be; sc_faults := ex_faults; sc_limit := 10;
+     sc_setup := sc_setup (ex_all be); sc_handlers := sc_handlers (ex_all be);
+     sc_wait := sc_wait (ex_all be); sc_rot := fun _ => 0 |}.
+
+Lemma ex_all_f_wf : forall be, 0 <= be <= 3 -> wf_scenario (ex_all_f be).
+Proof.
+  intros be Hbe. pose proof (ex_all_wf be Hbe) as W. destruct W as [W1 W2 W3 W4 W5 W6 W7].
+  constructor; cbn [ex_all_f sc_backend sc_limit sc_setup sc_handlers sc_wait sc_faults]; try assumption;
+    try (cbn; lia); try (cbn; discriminate).
+Qed.
+
+Definition has_eintr (tr : list tev) : bool :=
+  existsb (fun e => match e with TRet None _ _ => true | _ => false end) tr.
+Definition calls_fd (tr : list tev) : bool :=
+  existsb (fun e => match e with TCallFd 0 0 1 7 => true | _ => false end) tr.
+Definition calls_raw (tr : list tev) : bool :=
+  existsb (fun e => match e with TCallRaw 0 => true | _ => false end) tr.
+Definition calls_timer (tr : list tev) : bool :=
+  existsb (fun e => match e with TCallTimer 0 _ => true | _ => false end) tr.
+
+Lemma ex_all_f_runs : forall be, In be [0; 1; 2; 3] ->
+  let tr := run_scenario (ex_all_f be) in
+  has_eintr tr = true /\ calls_fd tr = true /\ calls_raw tr = true /\ calls_timer tr = true /\
+  mon_fails tr = [] /\ gmon_fails (ex_all_f be) tr = [].
+Proof.
+  intros be H. cbn [In] in H.
+  destruct H as [<-|[<-|[<-|[<-|[]]]]]; vm_compute; repeat split.
+Qed.
